@@ -75,7 +75,8 @@ def run_one(prop, tier, root, idx, ex):
 def replay_run(prop, run, tier):
     res = {"idx": -1, "seed": run.get("seed", 0)}
     return envsim.execute(run["spec"], run["modes"], run.get("props", [prop]),
-                          run.get("seed", 0), tier, res, ops=run["ops"])
+                          run.get("seed", 0), tier, res, ops=run["ops"],
+                          shadow=run.get("shadow"))
 
 
 def shrink_candidates(run):
